@@ -2,11 +2,14 @@
 //! with `--cfg flacenc_verif`) on generated cases and prints one protocol record per line.
 
 mod api;
+#[cfg(feature = "decode")]
 mod comp;
+mod config;
 mod gen;
 mod kernel;
 #[cfg(feature = "par")]
 mod par;
+#[cfg(feature = "decode")]
 mod parser;
 mod sink;
 mod stream;
@@ -45,10 +48,13 @@ fn main() {
             stream::generate(seed, cases, max_samples, &focus, &mut out);
         }
         "api" => api::generate(seed, flag(&args, "--thorough"), &mut out),
+        #[cfg(feature = "decode")]
         "comp" => comp::generate(seed, cases, &mut out),
+        "config" => config::generate(seed, cases, flag(&args, "--thorough"), &mut out),
         "kernel" => kernel::generate(seed, cases, &mut out),
         #[cfg(feature = "par")]
         "par" => par::generate(seed, cases, &mut out),
+        #[cfg(feature = "decode")]
         "parser" => {
             let stride: usize = arg(&args, "--burst-stride", 8);
             let nrandom: usize = arg(&args, "--random", 1000);
@@ -70,6 +76,7 @@ fn main() {
                 match kind {
                     "sink" => out(sink::replay(&l)),
                     "stream" => out(stream::replay(&l)),
+                    #[cfg(feature = "decode")]
                     "parser" => out(parser::replay(&l)),
                     _ => out(format!("#cannot-replay {kind}")),
                 }
